@@ -34,6 +34,9 @@ QUICK = [
     (2, P(p1=["queue:1", "queue:2"], c1=["dequeueT"], c2=["tryDequeue", "size"])),
     (1, P(p1=["tryQueueT:1", "tryQueueT:2"], c1=["dequeue"], k=["close"])),
     (1, P(c1=["dequeue"], c2=["dequeue"], p1=["queue:1"], k=["close"])),
+    # two consumers parked, two puts, NO close: each put must wake a consumer of its own
+    (2, P(c1=["dequeue"], c2=["dequeue"], p1=["queue:1", "queue:2"])),
+    (1, P(p1=["queue:1", "queue:2"], p2=["queue:3"], c1=["dequeue", "dequeue", "dequeue"])),
 ]
 THOROUGH = QUICK + [
     (2, P(p1=["queue:1", "queue:2", "queue:3"], c1=["dequeue", "dequeue"], k=["close"])),
@@ -152,7 +155,7 @@ def run(ck):
         raise vf.Infra("drv_bq failed: " + out[-2000:])
     judge(ck, out_path, cases, "bq")
     # ---- DFS of the real object
-    dfs_jobs = [(1, programs[0][1], 2), (1, programs[2][1], 2)]
+    dfs_jobs = [(1, programs[0][1], 2), (1, programs[2][1], 2), (2, programs[6][1], 2), (1, programs[7][1], 2)]
     if thorough:
         dfs_jobs = [(c, p, 2) for c, p in programs[:8]] + [(1, programs[0][1], 4)]
     for j, (cap, prog, bound) in enumerate(dfs_jobs):
